@@ -1533,7 +1533,7 @@ func indexSafetyWith(p *core.Prog, r *core.Run, rule string, fns []*ssa.Function
 					var facts []ineq
 					s.guardFacts(b, &facts)
 					goal := g.g(&facts)
-					if !proveLin(facts, goal) && !s.proveWithNE(b, facts, goal) {
+					if !proveLin(facts, goal) && !s.proveWithNE(b, facts, goal) && !s.provePhiCases(in, b, g.g) {
 						failed = append(failed, g.name)
 					}
 				}
@@ -1543,6 +1543,51 @@ func indexSafetyWith(p *core.Prog, r *core.Run, rule string, fns []*ssa.Function
 	}
 	r.Floor(rule, floor)
 	r.Tables[rule+".sites"] = nSites
+}
+
+// provePhiCases retries a goal by cases on a φ-node among the operands of the
+// instruction: at the use the φ has the value of one of its edges, and when it
+// took that value the conditions dominating the edge's source block held. The
+// goal is proved for every edge from the facts of the use site, the facts of
+// the edge's source and φ = edge value.
+func (s *safety) provePhiCases(in ssa.Instruction, b *ssa.BasicBlock, goal func(*[]ineq) lin) bool {
+	var rands []*ssa.Value
+	for _, r := range in.Operands(rands) {
+		v := *r
+		for {
+			if c, ok := v.(*ssa.Convert); ok {
+				v = c.X
+				continue
+			}
+			break
+		}
+		phi, ok := v.(*ssa.Phi)
+		if !ok || !isIntType(phi.Type()) || len(phi.Edges) > 6 {
+			continue
+		}
+		all := true
+		for i, e := range phi.Edges {
+			var facts []ineq
+			s.guardFacts(b, &facts)
+			s.guardFacts(phi.Block().Preds[i], &facts)
+			// the condition of the edge itself
+			for _, g := range core.EdgeGuards(phi.Block().Preds[i], phi.Block()) {
+				s.factOfGuard(g, &facts)
+			}
+			pl := s.toLin(phi, &facts, 0)
+			el := s.toLin(e, &facts, 0)
+			facts = append(facts, ineq{pl.add(el, -1)}, ineq{el.add(pl, -1)})
+			gl := goal(&facts)
+			if !proveLin(facts, gl) && !s.proveNE(append(core.Guards(b), core.Guards(phi.Block().Preds[i])...), facts, gl) {
+				all = false
+				break
+			}
+		}
+		if all {
+			return true
+		}
+	}
+	return false
 }
 
 // proveWithNE retries a goal using one "a != b" guard: with a <= b known it
@@ -1666,7 +1711,13 @@ func (s *safety) idiomSafe(in ssa.Instruction) (bool, string) {
 					}
 				}
 			default:
-				good = false
+				// any other value that is provably a valid index of the slice as
+				// it was before the φ (a hand-written search loop, say)
+				if s.validIndexOnEdge(e, pred, ph.Block(), fld, fa.X) {
+					found = true
+				} else {
+					good = false
+				}
 			}
 		}
 		// no other store to the field between the φ and the index
@@ -1680,6 +1731,67 @@ func (s *safety) idiomSafe(in ssa.Instruction) (bool, string) {
 		}
 	}
 	return false, ""
+}
+
+// validIndexOnEdge: along the edge pred->succ, 0 <= e < len(L) for some load L
+// of field fld (of base) that is still current at the end of pred.
+func (s *safety) validIndexOnEdge(e ssa.Value, pred, succ *ssa.BasicBlock, fld *types.Var, base ssa.Value) bool {
+	last := pred.Instrs[len(pred.Instrs)-1]
+	for _, b := range pred.Parent().Blocks {
+		for _, in := range b.Instrs {
+			ld, ok := in.(*ssa.UnOp)
+			if !ok || ld.Op != token.MUL {
+				continue
+			}
+			fa, ok := ld.X.(*ssa.FieldAddr)
+			if !ok || fieldVar(fa) != fld || !sameBase(s, fa.X, base) || !core.Before(ld, last) || !s.noKill(ld, last, fld, fa.X) {
+				continue
+			}
+			prove := func(extra func(*[]ineq), depth int) bool { return false }
+			var rec func(v ssa.Value, pre []func(*[]ineq), depth int) bool
+			rec = func(v ssa.Value, pre []func(*[]ineq), depth int) bool {
+				var facts []ineq
+				s.guardFacts(pred, &facts)
+				for _, g := range core.EdgeGuards(pred, succ) {
+					s.factOfGuard(g, &facts)
+				}
+				for _, f := range pre {
+					f(&facts)
+				}
+				el := s.toLin(e, &facts, 0)
+				g1 := el
+				g2 := s.lenLin(ld, &facts, 0).add(el, -1).add(newLin(1), -1)
+				if proveLin(facts, g1) && proveLin(facts, g2) {
+					return true
+				}
+				phi, ok := v.(*ssa.Phi)
+				if !ok || depth > 2 || len(phi.Edges) > 6 {
+					return false
+				}
+				for i, ev := range phi.Edges {
+					i, ev := i, ev
+					add := func(fs *[]ineq) {
+						s.guardFacts(phi.Block().Preds[i], fs)
+						for _, g := range core.EdgeGuards(phi.Block().Preds[i], phi.Block()) {
+							s.factOfGuard(g, fs)
+						}
+						pl := s.toLin(phi, fs, 0)
+						vl := s.toLin(ev, fs, 0)
+						*fs = append(*fs, ineq{pl.add(vl, -1)}, ineq{vl.add(pl, -1)})
+					}
+					if !rec(ev, append(append([]func(*[]ineq){}, pre...), add), depth+1) {
+						return false
+					}
+				}
+				return true
+			}
+			_ = prove
+			if rec(e, nil, 0) {
+				return true
+			}
+		}
+	}
+	return false
 }
 
 func isZeroConst(v ssa.Value) bool {
